@@ -13,7 +13,7 @@ fn main() {
   }
   common::quiet_panics();
   let skip: usize = args.get(5).and_then(|s| s.parse().ok()).unwrap_or(0);
-  let drivers = common::read_drivers(&args[2]);
+  let drivers = common::read_drivers(&args[2], skip);
   let mut out = common::Out::append(&args[3]);
   let f: fn(&serde_json::Value, &mut common::Out, &str) = match args[1].as_str() {
     "buf" => buf::run_driver,
@@ -24,7 +24,7 @@ fn main() {
       std::process::exit(2);
     }
   };
-  for d in drivers.iter().skip(skip) {
+  for d in drivers.iter() {
     f(d, &mut out, &args[4]);
   }
 }
